@@ -10,8 +10,8 @@ use super::{um_model, um_oracle};
 use crate::run::{ImplOut, Suite};
 
 /// qualifiers that discriminate between mechanisms and therefore stay in the signature
-const KEEP: [&str; 14] = [
-    "-failed", "-lang", "-arrays",
+const KEEP: [&str; 15] = [
+    "-failed", "-lang", "-arrays", "-over-cse",
     "-into-empty", "-over-existing", "-over-spill", "-over-array", "-over-empty-styled", "-hidden",
     "-full-col", "-full-row", "-cells", "-copy", "-cut",
 ];
@@ -58,7 +58,19 @@ pub fn normalise_sig(sig: &str) -> String {
 fn normalise(mut o: ImplOut) -> ImplOut {
     o.oracle.truncate(1);
     for (sig, detail) in o.oracle.iter_mut() {
-        let n = normalise_sig(sig);
+        let mut n = normalise_sig(sig);
+        if (n.starts_with("c01:") || n.starts_with("c02:")) && n.ends_with(":cell-content") {
+            // direction of the first differing cell: `lost` (was there, is absent after the undo/redo),
+            // `gained` (was absent, is there now) or `changed`: a lost array is not a reappearing spill
+            if let Some(i) = detail.find(" := ") {
+                let rest = &detail[i + 4..];
+                let entry = rest.split(" | ").next().unwrap_or("");
+                let mut ab = entry.splitn(2, " => ");
+                let (a, b) = (ab.next().unwrap_or("").trim(), ab.next().unwrap_or("").trim());
+                let b = b.split(" ;; ").next().unwrap_or("").trim();
+                n.push_str(if a == "<absent>" { ":gained" } else if b == "<absent>" { ":lost" } else { ":changed" });
+            }
+        }
         if n != *sig {
             *detail = format!("[{}] {}", sig, detail);
             *sig = n;
